@@ -318,6 +318,14 @@ def _(c):
         for rev in (False, True):
             c.scenario(f"n{n}-{'desc' if rev else 'asc'}",
                        (lambda n, rev: lambda b: dict(args=[collector(b, n), "y", rev]))(n, rev))
+    # ties in the sort column (concrete keys, the other cells symbolic): every row survives, none is duplicated
+    for keys in ([2.0, 1.0, 2.0], [1.0, 1.0, 1.0], [3.0, 2.0, 2.0, 3.0]):
+        for rev in (False, True):
+            def pre_t(b, keys=keys, rev=rev):
+                n = len(keys)
+                rc = b.obj(RC, _columns=b.list(COLS), _array=False, x=b.list([b.int(f"x{i}") for i in range(n)]), y=b.list(list(keys)), z=b.list([b.int(f"z{i}") for i in range(n)]))
+                return dict(args=[rc, "y", rev])
+            c.scenario(f"ties-{'-'.join(str(int(k)) for k in keys)}-{'desc' if rev else 'asc'}", pre_t)
     c.requires("rect(self)")
     c.ensures("all([ (rowsof(self)[i][1] >= rowsof(self)[i+1][1]) if reverse else (rowsof(self)[i][1] <= rowsof(self)[i+1][1]) for i in range(len(rowsof(self)) - 1)])", "sorted-by-column")
     c.ensures("len(rowsof(self)) == len(old(rowsof(self))) and all([count_row(rowsof(self), r) == count_row(old(rowsof(self)), r) for r in old(rowsof(self))])", "multiset-of-rows-preserved")
